@@ -21,13 +21,13 @@ RULE = (
     "Hypothesis, four case kinds. (json) dicts with keys = non-negative ints and strings that are "
     "not str.isdigit() (the loader documents digit strings -> ints); values from a recursive "
     "strategy over None, bool, int (beyond 2**63), finite and non-finite float, Unicode str, list, "
-    "nested dict (string keys), NumPy scalars (bool, ints, floats), ndarrays of bool, (u)int8-64, "
+    "nested dict (string keys, also digit-only ones, which stay strings below the top level), NumPy scalars (bool, ints, floats), ndarrays of bool, (u)int8-64, "
     "float16-64, complex64/128 and big-endian variants, rank 0..3, empty, Fortran-ordered, "
     "negative-stride, strided and transposed. (tsv) row lists over a field alphabet (>=2 columns), "
     "missing fields, empty rows, both delimiters, cells int / float / non-empty strings rejected "
     "by both int() and float() over an alphabet with both delimiters, quotes, spaces, newlines; "
     "first_field present/absent. (simple) two-column tables with arbitrary (negative) ids. (py) "
-    "parameter dicts: lower-case identifier keys, int/finite float/bool/None/ASCII strings, nested "
+    "parameter dicts: lower-case identifier keys, int/finite float/bool/None/ASCII strings/NumPy scalars, nested "
     "lists/dicts. Oracle: structural type-exact equality, NaN-aware; ndarray -> same dtype incl. "
     "byte order, shape, values (1-D arrays of <=10 items -> equal list); TSV floats within "
     "0.5e-4 and typed float. Non-trivial: an ndarray that is not C-contiguous or not small-1-D, "
@@ -214,11 +214,14 @@ def _nd(draw):
 _npscalar = st.builds(lambda d, c: {'$': 'np', 'dtype': d, 'code': c},
                       st.sampled_from(SCALAR_DTYPES),
                       st.integers(-40, 40) | st.sampled_from([900, 901, 902, 903]))
+_npscalar_finite = st.builds(lambda d, c: {'$': 'np', 'dtype': d, 'code': c},
+                             st.sampled_from(SCALAR_DTYPES), st.integers(-40, 40))
 _leaf = st.none() | st.booleans() | _int | _float | _text | _npscalar | _nd()
 _json_value = st.recursive(
     _leaf,
     lambda ch: st.lists(ch, max_size=4) |
-    st.lists(st.tuples(_skey, ch), max_size=3, unique_by=lambda kv: kv[0]).map(
+    st.lists(st.tuples(_skey | st.sampled_from(['0', '10', '007']), ch), max_size=3,
+             unique_by=lambda kv: kv[0]).map(
         lambda items: {'$': 'dict', 'items': [list(kv) for kv in items]}),
     max_leaves=8)
 
@@ -299,7 +302,7 @@ def _py_case(draw):
     n = draw(st.integers(0, 6))
     keys = draw(st.lists(_ident, min_size=n, max_size=n, unique=True))
     # containers only at the top level: a bare top-level string must obey the _top_str domain
-    top = _py_atom | _top_str | st.lists(_py_nested, max_size=4) | \
+    top = _py_atom | _top_str | _npscalar_finite | st.lists(_py_nested, max_size=4) | \
         st.lists(st.tuples(_ascii_any | st.integers(-5, 5), _py_nested), max_size=3,
                  unique_by=lambda kv: repr(kv[0])).map(
                      lambda items: {'$': 'dict', 'items': [list(kv) for kv in items]})
@@ -392,12 +395,13 @@ def _check_simple(case, d):
 
 def _check_py(case, d):
     data = {k: build(v) for k, v in case['items']}
+    exp = {k: (v.item() if isinstance(v, np.generic) else v) for k, v in data.items()}
     p = d / 'params.py'
     must_return('write_python', write_python, p, data)
     out = must_return('read_python', read_python, p)
-    r = equal(out, data)
+    r = equal(out, exp)
     require(r is None, 'parameter file round trip: %s' % r, key='py-roundtrip', observed=out,
-            expected=data)
+            expected=exp)
 
 
 def check(case):
